@@ -33,6 +33,7 @@ CandA == {1, 4, 5, 7, 21, 11, 14, 24}         \* 4 successes, 2 failures, 2 inva
 CandB == {17, 3, 6, 8, 9, 12, 23, 16}         \* other outcomes at the same slots
 CandC == {1, 2, 17, 7, 8, 20, 9, 10, 13, 14}  \* all three / both outcomes at the same instants
 CandS == {4, 5, 7, 11, 22}
+CandL == {4, 7, 11}                           \* process-life generation: 2023-12-31, 2024-01-01, 2024-02-28 on J
 
 (* ---- Y: day 1 = 2023-12-30, 2 = 12-31, 3 = 2024-01-01, 4 = 01-02, 5 = 01-03 *)
 CalY == << <<2023, 12, 30>>, <<2023, 12, 31>>, <<2024, 1, 1>>, <<2024, 1, 2>>, <<2024, 1, 3>> >>
@@ -81,7 +82,7 @@ EntAtJ == BySlot(<< At(1, 4),     \* 2023-12-30 18:00
                     At(63, 2) >>) \* 2024-03-01 06:00
 EntRunJ == WithInvalid(<<1, 1, 1, 1, 2, 2, 2, 3, 2, 2, 3, 3, 3, 3, 4, 4>>)
 BoundsJQ == { At(1, 3), At(2, 2), At(3, 1), At(3, 2), At(3, 4), At(4, 2), At(18, 3), At(62, 1), At(62, 5), At(63, 2) }
-BoundsJL == { At(2, 2), At(18, 3), At(62, 5) }   \* the process-life generation (Chronicle_Gen, LifeSpec)
+BoundsJL == { At(2, 2), At(62, 5) }   \* the process-life generation (Chronicle_Gen, LifeSpec)
 BoundsYL == { At(2, 2), At(3, 2), At(4, 5) }
 NowsJQ == { At(63, 3) }             \* 2024-03-01 12:00
 NowsJT == { At(63, 3), At(63, 5) }
